@@ -189,6 +189,7 @@ impl Worksheet {
             let max = cols[index].max;
             let custom_width = cols[index].custom_width;
             let width = cols[index].width;
+            let hidden = cols[index].hidden;
             let pre = Col {
                 min,
                 max: column - 1,
@@ -203,7 +204,7 @@ impl Worksheet {
                 width,
                 custom_width,
                 style: None,
-                hidden: false,
+                hidden,
             };
             let post = Col {
                 min: column + 1,
@@ -217,7 +218,8 @@ impl Worksheet {
             if column != max {
                 cols.insert(index, post);
             }
-            if custom_width {
+            // without a style the column keeps its descriptor for as long as it has a width or is hidden
+            if custom_width || hidden {
                 cols.insert(index, col);
             }
             if column != min {
